@@ -497,6 +497,15 @@ func govcText(r *rand.Rand) string {
 	}
 	b := make([]byte, n)
 	r.Read(b)
+	// C strings and padded fields: runs of NUL octets at the end and in the middle are common on the wire
+	if n > 0 && r.Intn(4) == 0 {
+		for j := n - 1 - r.Intn(3); j >= 0 && j < n; j++ {
+			b[j] = 0
+		}
+	}
+	if n > 2 && r.Intn(8) == 0 {
+		b[r.Intn(n)] = 0
+	}
 	return string(b)
 }
 
